@@ -23,10 +23,17 @@ Extractors are registered per property in EXTRACTORS below (properties without a
   C08            Gen/SrcKmpLps.lean, SrcShiftAndMasks.lean, SrcHorspoolNew.lean
   C18            Gen/SrcFenwick.lean, SrcBitEnc.lean
   C04            Gen/SrcBwt.lean, SrcPrescan.lean
+  C18 C03        Gen/SrcSmallInts.lean   (genbits) SmallInts::{real_value,get,push,set,from_elem,len}; SrcBitEnc.lean also holds
+                                      BitEnc::{new,push,push_values,set,get,clear,nr_blocks,nr_symbols,len}
+  C17            Gen/SrcRankSelect.lean, SrcWavelet.lean   (genbits) superblocks, rank_1, rank_0; check_overflow, prank, rank
                                       whole function bodies (kmp::lps, KMP::delta, shift_and::masks, Horspool::new,
                                       FenwickTree::get/set, bitenc mask/addr/get_by_addr/set_by_addr, bwt::bwt,
                                       utils::prescan) translated to Lean by tools/rs2lean.py; the equality theorems
                                       with the mirror models (Thm/GenSrc*.lean) are restated in Thm/C08|C18|C04.lean
+  C08 (genpm)    Gen/SrcShiftAndNext.lean, SrcKmpNext.lean, SrcHorspoolNext.lean, SrcBndmNext.lean, SrcBomNext.lean
+                                      constructors, find_all and Matches::next of ShiftAnd, KMP, Horspool, BNDM (search loops as
+                                      functions on the explicit iterator state); Thm/GenSrc*Next.lean, restated in Thm/C08.lean
+  C09 (genpm)    Gen/SrcHamming.lean  alignment::distance::hamming; Thm/GenSrcHamming.lean, restated in Thm/C09.lean
 
 RbV/Thm/C01.lean and RbV/Thm/C02.lean import RbV.Thm.GenLimits / RbV.Thm.GenTbCodes and restate their theorems as
 property theorems, and the C01/C02 spec/reference files (`Spec/Align.lean` `minScore`, `Ref/Banded.lean` `maxCells`) are
@@ -845,7 +852,19 @@ def gen_src(unit_name):
     hand-written mirror models live in Thm/GenSrc<Name>.lean and are restated in the property's Thm/Cxx.lean."""
     def run_src(repo):
         sys.path.insert(0, os.path.dirname(os.path.abspath(__file__)))
-        import rs2lean
+        # The translator exists in several *dialect modules* (one per builder who extended it in parallel: the base +
+        # bit-container constructs in rs2lean.py, the search-loop constructs in rs2lean_pm.py, …).  A unit is translated by
+        # the first module whose UNITS defines it; every module is a complete translator over the same semantics
+        # (lean/RbV/Basic/RsSem*.lean) and has its own --selftest.
+        import importlib
+        rs2lean = None
+        for modname in TRANSLATOR_MODULES:
+            mod = importlib.import_module(modname)
+            if unit_name in mod.UNITS:
+                rs2lean = mod
+                break
+        if rs2lean is None:
+            fail("translation unit %s is not defined by any of %s" % (unit_name, ", ".join(TRANSLATOR_MODULES)))
         u = rs2lean.UNITS[unit_name]
         s = Src(repo, u["file"])
         text, snippets = rs2lean.translate_unit(s, u, fail)
@@ -855,7 +874,18 @@ def gen_src(unit_name):
     return run_src
 
 
+# dialect modules of the Rust→Lean translator, in lookup order (tools/<name>.py)
+TRANSLATOR_MODULES = ["rs2lean", "rs2lean_pm", "rs2lean_fm"]
 GEN_SRC = {n: gen_src(n) for n in ("SrcKmpLps", "SrcShiftAndMasks", "SrcHorspoolNew", "SrcFenwick", "SrcBitEnc", "SrcBwt", "SrcPrescan")}
+# (genbits) bit-packed containers: SmallInts (C18, C03), RankSelect and WaveletMatrix (C17)
+GEN_SRC.update({n: gen_src(n) for n in ("SrcSmallInts", "SrcRankSelect", "SrcWavelet")})
+
+# genpm: search loops of the exact matchers (C08) and distance functions (C09)
+GEN_SRC.update({n: gen_src(n) for n in ("SrcShiftAndNext", "SrcKmpNext", "SrcHorspoolNext", "SrcBndmNext", "SrcBomNext")})
+GEN_SRC.update({n: gen_src(n) for n in ("SrcHamming",)})
+
+# genfm: the FM-index chain (C04/C05) — added separately so that concurrent edits of the line above merge trivially
+GEN_SRC.update({n: gen_src(n) for n in ("SrcOcc", "SrcLess", "SrcBackwardSearch", "SrcSampledGet")})
 
 
 # ------------------------------------------------------------------------------------------ theorem modules built here
@@ -909,6 +939,42 @@ EXTRACTORS = {
     "C08": [GEN_SRC["SrcKmpLps"], GEN_SRC["SrcShiftAndMasks"], GEN_SRC["SrcHorspoolNew"]],
     "C18": [GEN_SRC["SrcFenwick"], GEN_SRC["SrcBitEnc"]],
 }
+# (genbits) additional units, appended so that concurrent edits of the table above merge trivially
+EXTRACTORS["C18"] = EXTRACTORS["C18"] + [GEN_SRC["SrcSmallInts"]]
+EXTRACTORS["C03"] = EXTRACTORS["C03"] + [GEN_SRC["SrcSmallInts"]]
+EXTRACTORS["C17"] = EXTRACTORS["C17"] + [GEN_SRC["SrcRankSelect"], GEN_SRC["SrcWavelet"]]
+
+# genpm: `Matches::next` of the exact matchers; Thm/C08.lean imports RbV.Thm.GenSrc*Next and restates the theorems
+EXTRACTORS["C08"] = EXTRACTORS["C08"] + [GEN_SRC[n] for n in ("SrcShiftAndNext", "SrcKmpNext", "SrcHorspoolNext", "SrcBndmNext", "SrcBomNext")]
+# genpm: C09 — Thm/C09.lean imports RbV.Thm.GenSrcHamming (…) and restates the theorems
+EXTRACTORS["C09"] = EXTRACTORS.get("C09", []) + [GEN_SRC[n] for n in ("SrcHamming",)]
+
+def soft_modules(mods, what):
+    """genfm: `lake build` of shape-dependent equality theorems "translated body = mirror model" that a property-preserving
+    rewrite may falsify (the property-level theorems over the same generated definition are hard obligations of
+    Thm/Cxx.lean).  A failure is a note decided by the behavioural tie (`drift` tags), never a broken obligation."""
+    def run_soft(repo):
+        p = subprocess.run(["lake", "build"] + mods, cwd=LEAN, stdout=subprocess.PIPE, stderr=subprocess.STDOUT,
+                           text=True, timeout=3600)
+        if p.returncode != 0:
+            names = []
+            for mm in re.finditer(r"error: (RbV/[\w/]+\.lean):(\d+):\d+:\s*(.*)", p.stdout):
+                d = "%s (%s:%s)" % (enclosing_decl(mm.group(1), int(mm.group(2))), mm.group(1), mm.group(2))
+                if d not in names:
+                    names.append(d)
+            shape_note("%s: %s" % (what, " | ".join(names[:4]) or "lake build failed"))
+        else:
+            print("gen_tables: %s checked (soft)" % " ".join(mods))
+    run_soft.__name__ = "run_soft_" + "_".join(m.split(".")[-1] for m in mods)
+    return run_soft
+
+
+# genfm: translated bodies of the FM-index chain; Thm/C04.lean and Thm/C05.lean import RbV.Thm.GenSrc* and restate
+SOFT_OCC = soft_modules(["RbV.Thm.GenSrcOccModel"], "the mirror model `occGet` no longer mirrors the text of `Occ::get` "
+                        "branch by branch (the property-level theorem `occ_get_source_exact` is checked separately)")
+EXTRACTORS["C04"] = EXTRACTORS["C04"] + [GEN_SRC["SrcOcc"], SOFT_OCC, GEN_SRC["SrcLess"]]
+EXTRACTORS["C05"] = EXTRACTORS.get("C05", []) + [gen_occ, GEN_SRC["SrcOcc"], GEN_SRC["SrcBackwardSearch"]]
+EXTRACTORS["C03"] = EXTRACTORS["C03"] + [GEN_SRC["SrcSampledGet"], GEN_SRC["SrcOcc"]]
 
 
 # additive registrations (kept outside the dict literal so that concurrent edits merge)
@@ -934,11 +1000,30 @@ def main():
                     fns.append(fn)
     else:
         fns = EXTRACTORS.get(a.prop.upper(), [])
+    # One extractor failing must not keep the others from regenerating their files.  Two kinds of failure:
+    #  * a *translation unit* (gen_src_<Unit>: a function body translated by tools/rs2lean*.py) whose text can no longer be
+    #    translated (construct outside the subset, pinned header gone): the translator has nothing to say about the new
+    #    text.  Reported as `gen_tables-unavailable:` (exit status unaffected): for these functions the tie falls back to
+    #    the hand-written mirror model + correspondence run (./check escalates the budget and does not count the theorems
+    #    about the stale generated copy).  This is not a broken proof obligation: no statement about the current text failed.
+    #  * everything else (constants, tables, use-site statements of constants; theorem modules built here): a broken
+    #    source-extracted obligation, exit 1.
+    hard, unavailable = [], []
     for fn in fns:
-        fn(repo)
+        try:
+            fn(repo)
+        except SystemExit as e:
+            if e.code in (0, None):
+                continue
+            if fn.__name__.startswith("gen_src_"):
+                unavailable.append(fn.__name__[len("gen_src_"):])
+            else:
+                hard.append(fn.__name__)
     if a.json:
         print("gen_tables-json: " + json.dumps(REPORT, sort_keys=True))
-    sys.exit(0)
+    if unavailable:
+        print("gen_tables-unavailable: " + json.dumps(sorted(set(unavailable))))
+    sys.exit(1 if hard else 0)
 
 
 if __name__ == "__main__":
